@@ -370,8 +370,8 @@ def _kernel(draw, cfg, dom, m, n, batch, opname):
     if kname == "multitask":
         r["params"]["task_root"] = flit(draw, cfg, pb + (2, 2), -8, 8, scale_ok=False)
         r["nout"] = [2, 2]
-        if opname == "Kernel" and cfg.ok("Kernel.op_param") and draw(st.booleans()):
-            r["op_param"] = "task_root"
+        # (an operator-valued hyperparameter, r["op_param"] = "task_root", is only set by C14's `opkernel` mode: how such a
+        #  keyword argument batches / indexes is not specified by KernelLinearOperator, only that copies and rebuilds keep it)
     return r
 
 
